@@ -114,6 +114,8 @@ func expect(cs *caseSpec) expectation {
 			e.label = "normal exit by Ctrl+D with a Ctrl+I insert in flight"
 		case isOneShell(how):
 			e.label = oneShellLabel(how)
+		case isLogExit(how):
+			e.label = logLabel(how)
 		default:
 			e.label = "normal exit by Ctrl+D"
 		}
